@@ -636,6 +636,15 @@ def run_7bit(case, R):
              'encoder given, but the result of encode_7bit still contains 8-bit bytes (header block labels the '
              'body %s)' % label, flattened=(h, b))
         return
+    if not eightbit and label in ('base64', 'quoted-printable'):
+        # a pure ASCII body under a base64 / quoted-printable label is, for all anyone can tell, honestly
+        # labelled and outside the "8-bit text body" claim: decoding it as text would judge the generator,
+        # not the library.  Only: nothing may have been touched.
+        R.count('ascii-body-under-7bit-cte-label/judged-unchanged-only')
+        if (h, b) != (h0, b0):
+            viol('encode-7bit/%s/ascii-body-changed/cte-label-%s' % (encname, label),
+                 'a pure ASCII message was changed by encode_7bit', flattened=(h, b), before=(h0, b0))
+        return
     m = email.message_from_bytes(h + b)
     try:
         dec = m.get_payload(decode=True)
